@@ -64,8 +64,35 @@ def file_hash(path):
         return hashlib.sha256(fh.read()).hexdigest()[:16]
 
 
+class scratch_manifest:
+    """development aid (VERIF_REPO=<scratch worktree>): the harness crates name /repo as a path dependency; point them at the
+    scratch tree for the duration of one build and restore the manifest afterwards.  A no-op for /repo."""
+
+    def __init__(self, crate_dir):
+        self.path = os.path.join(crate_dir, "Cargo.toml")
+        self.orig = None
+
+    def __enter__(self):
+        if REPO != "/repo":
+            self.orig = open(self.path).read()
+            with open(self.path, "w") as fh:
+                fh.write(self.orig.replace('path = "/repo"', 'path = "%s"' % REPO))
+        return self
+
+    def __exit__(self, *exc):
+        if self.orig is not None:
+            with open(self.path, "w") as fh:
+                fh.write(self.orig)
+        return False
+
+
 def build_native():
     """(re)build verif-native against /repo's current working tree, hooks on"""
+    with scratch_manifest(os.path.join(VERIF, "native")):
+        return _build_native()
+
+
+def _build_native():
     os.makedirs(CACHE, exist_ok=True)
     nat = os.path.join(VERIF, "native")
     lock_src = os.path.join(REPO, "Cargo.lock")
